@@ -127,6 +127,10 @@ impl Router {
                 stream.context.cluster_id.clone(),
             ));
         }
+        // the frontend's request-side policy (rewrites, header edits) is applied
+        // to the request once: a retry after a failed backend connection runs
+        // this function again on the same, already edited, request
+        let first_attempt = stream.attempts == 0;
         stream.attempts += 1;
 
         // Borrow front mutably (so route_from_request can rewrite the request
@@ -140,7 +144,13 @@ impl Router {
             (&mut stream_split.front, &mut stream_split.context)
         };
         let cluster_id = self
-            .route_from_request(stream_context_ref, front_ref, &context.listener, &proxy)
+            .route_from_request(
+                stream_context_ref,
+                front_ref,
+                &context.listener,
+                &proxy,
+                first_attempt,
+            )
             .map_err(BackendConnectionError::RetrieveClusterError)?;
         let stream_context = &mut stream.context;
         stream_context.cluster_id = Some(cluster_id.to_owned());
@@ -545,6 +555,7 @@ impl Router {
         front: &mut super::GenericHttpStream,
         listener: &Rc<RefCell<L>>,
         proxy: &Rc<RefCell<dyn L7Proxy>>,
+        apply_request_policy: bool,
     ) -> Result<String, RetrieveClusterError> {
         let (host, uri, method) = match context.extract_route() {
             Ok(tuple) => tuple,
@@ -845,13 +856,17 @@ impl Router {
         // From here on the route is a Forward — apply the frontend's
         // rewrite + header policy to the request kawa so the backend
         // wire carries the operator-configured shape.
-        apply_request_rewrites_and_headers(
-            front,
-            context,
-            rewritten_host.as_deref(),
-            rewritten_path.as_deref(),
-            &headers_request,
-        );
+        // (not again on a connection retry: an appended header would be
+        // written once per attempt)
+        if apply_request_policy {
+            apply_request_rewrites_and_headers(
+                front,
+                context,
+                rewritten_host.as_deref(),
+                rewritten_path.as_deref(),
+                &headers_request,
+            );
+        }
 
         // Pass 2 of the response-snapshot copy (see the HSTS hoist
         // above). Runs unconditionally on the regular forward path
